@@ -310,8 +310,11 @@ func check(c Case) *vk.Failure {
 				return f
 			}
 			secN = c.N2
-		} else if f := vk.Try("AtToWriter(inner section)", func() { w = iohelper.AtToWriter(inner, c.Off2) }); f != nil {
-			return f
+		} else {
+			m.ownEnd = math.MaxInt64 // AtToWriter's own section has no practical end: only the inner section refuses
+			if f := vk.Try("AtToWriter(inner section)", func() { w = iohelper.AtToWriter(inner, c.Off2) }); f != nil {
+				return f
+			}
 		}
 		secOff = c.Off + c.Off2
 	} else if c.Kind == "section" {
@@ -459,6 +462,8 @@ func modelFor(c Case) *model {
 			if m.ownEnd < m.limit {
 				m.limit = m.ownEnd
 			}
+		} else {
+			m.ownEnd = math.MaxInt64
 		}
 	}
 	return m
